@@ -356,6 +356,7 @@ def rwFinish (w o : Obs α) (allConfigs : Bool) : Except CombErr (Obs α) := do
 
 theorem reweight1_eq (w o : Obs α) (ac : Bool) : reweight1 w o ac =
     if o.covs.length > 0 then .error .covobs
+    else if w.covs.length > 0 then .error .covobs
     else if (!(o.names.all (fun n => w.names.contains n))) = true then .error .ensemblesDoNotFit
     else if (decide (o.mcNames.length > 1) || decide (w.mcNames.length > 1)) = true then .error .multipleEnsembles
     else (forIn o.reps PUnit.unit (rwBody w)).bind (fun _ => rwFinish w o ac) := by
